@@ -20,7 +20,7 @@
    This file contains nothing but the property theorems, each closed by [exact <lemma>]. *)
 From Coq Require Import ZArith List Bool.
 From Tickit Require Import RectDefs RBDefs RBSpec RBAbsLemmas RBInv RBProofs Gen_Linechars RBGlyphs RBGlyphProofs
-                           RBFlushDefs RBFlushSpec RBFlushProofs RBProps RBWidth RBFlushCols RBFlushReach RBTermSim RBFlushShown RBFlushGrid RBFlushFull.
+                           RBFlushDefs RBFlushSpec RBFlushProofs RBProps RBWidth RBFlushCols RBFlushReach RBTermSim RBFlushShown RBFlushGrid RBFlushFull RBCopySpec RBCopyContent.
 Import ListNotations.
 Local Open Scope Z_scope.
 
@@ -93,6 +93,19 @@ Print Assumptions C04_flush_columns_reachable.
 Theorem C04_content_invariant : forall A o, op_ok o -> ashape A -> acells_ok A -> acells_ok (fst (astep A o)).
 Proof. exact astep_aok. Qed.
 Print Assumptions C04_content_invariant.
+
+(* ... and by the specification of copyrect / moverect / blit (property C13), so the flush
+   theorems below apply to buffers built with them as well. *)
+Theorem C04_content_invariant_copyrect : forall s dr sr, ashape s -> acells_ok s -> acells_ok (a_copyrect s dr sr).
+Proof. exact a_copyrect_aok. Qed.
+Print Assumptions C04_content_invariant_copyrect.
+Theorem C04_content_invariant_moverect : forall s dr sr, ashape s -> acells_ok s -> acells_ok (a_moverect s dr sr).
+Proof. exact a_moverect_aok. Qed.
+Print Assumptions C04_content_invariant_moverect.
+Theorem C04_content_invariant_blit : forall dst src,
+  ashape dst -> acells_ok dst -> ashape src -> acells_ok src -> acells_ok (a_blit dst src).
+Proof. exact a_blit_aok. Qed.
+Print Assumptions C04_content_invariant_blit.
 
 (* The terminal model executes any list of operations exactly as the grid-free description
    [paint] says (goto within the terminal; prints of valid strings beginning with a base
